@@ -627,11 +627,13 @@ func RunCLI(c *core.Ctx, e *Env, targets []CLITarget) {
 				}
 				lw.Wait()
 				var next []*cliNode
-				newStates := 0
+				newStates, expired := 0, 0
 				for _, r := range results {
 					if r.err != nil {
 						if r.err != errExpired {
 							c.HarnessError("cli %s: %v", name, r.err)
+						} else {
+							expired++
 						}
 						continue
 					}
@@ -650,6 +652,9 @@ func RunCLI(c *core.Ctx, e *Env, targets []CLITarget) {
 						c.Sample(map[string]any{"exploration": "cli", "design": name, "history": r.node.ops, "files": len(r.node.state)})
 					}
 					next = append(next, r.node)
+				}
+				if expired > 0 {
+					c.Incomplete(fmt.Sprintf("cli %s: deadline at level %d of %d, %d CLI transitions not executed", name, level+1, depth, expired))
 				}
 				sum.States += newStates
 				sum.PerLevel = append(sum.PerLevel, newStates)
